@@ -3,6 +3,132 @@ import os
 import core
 from core import hx, gen_mag
 
+# coq/gen/StorageGen.v (capacity formulas and tests of buffer.rs / repr.rs, the capacities requested by the arithmetic
+# routines, thresholds / requirement formulas / allocation sequences of the multiplication scratch memory) is regenerated
+# from the Rust sources when this plug-in is imported, i.e. before the proof phase of every run.  Unparseable source is
+# not an alarm: the previous copy stays (marked STALE), the status goes into the evidence (extra_phase).
+import sys
+sys.path.insert(0, os.path.join(core.ROOT, "tools"))
+try:
+    import translate_c17_r3
+    STORAGE_GEN_STATUS = translate_c17_r3.generate(core.REPO, os.path.join(core.COQ, "gen"))
+except Exception as _ex:  # the generator itself broke: same fallback as an unparseable source
+    STORAGE_GEN_STATUS = "unparsed generator-failed: %s" % str(_ex)[:200]
+
+
+MIRI_BUDGET_S = 1500   # wall-clock budget of the Miri support run (thorough tier only)
+MIRI_GENERATED = 120   # generated threshold histories run under Miri beside the corpus
+
+
+def _mask_ledger(ans):
+    """an answer of the harness with the allocator ledger fields removed (the Miri build runs without the counting allocator)"""
+    t = ans.split()
+    out = []
+    i = 0
+    while i < len(t):
+        if t[i] == "S" and i + 13 < len(t) + 1:
+            out += t[i:i + 11] + ["-", "-"] + t[i + 13:i + 14]
+            i += 14
+        elif t[i] == "E":
+            out += t[i:i + 5] + ["-", "-"] + t[i + 7:i + 8]
+            i += 8
+        else:
+            out.append(t[i])
+            i += 1
+    return " ".join(out)
+
+
+def miri_support(seed, exes):
+    """SUPPORT ONLY (never the deciding technique): the corpus and a set of short threshold histories under
+    `cargo +nightly miri run` (Stacked Borrows, the real allocator boundaries, no guard allocator).  Miri reporting
+    undefined behaviour, or answering differently from the native build, is a failure with the history as replay."""
+    import subprocess
+    import time
+    t0 = time.time()
+    rng = core.Rng(seed ^ 0xC17)
+    lines = [l.strip() for l in open(os.path.join(core.ROOT, "corpus", "C17.txt")) if l.strip() and l.startswith("hist")]
+    for i in range(MIRI_GENERATED):
+        lines.append("hist " + " ; ".join(gen_boundary(rng, i % 27)))
+    lines += ["scr 19 19", "scr 32 19", "scr 1a 3"]
+    numbered = list(enumerate(lines))
+    d = core.harness_dir("default")
+    tdir = os.path.join(core.CACHE, "target", "miri-" + core.sha(core.REPO, "miri"))
+    env = dict(os.environ, RUSTFLAGS="--cfg dashu_verif -Awarnings", CARGO_NET_OFFLINE="true", CARGO_TARGET_DIR=tdir,
+               DASHU_REPO=core.REPO, MIRIFLAGS="-Zmiri-disable-isolation")
+    inp = "".join("%d %s\n" % (i, l) for i, l in numbered)
+    status, out, err = "ok", "", ""
+    try:
+        with core.Lock("cargo-miri-c17"):
+            p = subprocess.run(["cargo", "+nightly", "miri", "run", "--offline", "--bin", HARNESS_BIN], cwd=d, env=env, input=inp,
+                               capture_output=True, text=True, timeout=MIRI_BUDGET_S)
+        out, err, rc = p.stdout, p.stderr, p.returncode
+    except subprocess.TimeoutExpired as ex:
+        out = ex.stdout.decode(errors="replace") if isinstance(ex.stdout, bytes) else (ex.stdout or "")
+        err, rc, status = "", 0, "budget-exhausted"
+    except Exception as ex:  # Miri not installed / not runnable: support only, not an alarm
+        return {"evaluations": 0, "hist": {"miri:unavailable": 1}, "nontrivial": [], "failures": [],
+                "samples": [{"miri": "not run: %s" % str(ex)[:200]}]}
+    answered = {}
+    for ln in out.splitlines():
+        k, _, a = ln.partition(" ")
+        if k.isdigit():
+            answered[int(k)] = a
+    failures = []
+    ub = "Undefined Behavior" in err or (rc != 0 and "error:" in err)
+    if rc != 0 and not ub and not answered:
+        # the build under Miri failed (e.g. no Miri sysroot available offline): support only
+        return {"evaluations": 0, "hist": {"miri:unavailable": 1}, "nontrivial": [], "failures": [],
+                "samples": [{"miri": "not run (rc=%d): %s" % (rc, err[-300:])}]}
+    if ub:
+        nxt = len(answered)
+        i = err.find("error:")
+        failures.append({"kind": "miri", "case": lines[nxt] if nxt < len(lines) else "?", "index": nxt,
+                         "miri": err[i:i + 1500], "note": "Miri stopped at this history (support run; reproduce with cargo +nightly miri run in the harness crate)"})
+        status = "undefined-behaviour"
+    native = core.run_lines(exes.get("default") or list(exes.values())[0], [(i, l) for i, l in numbered if i in answered], 120) if answered else {}
+    differ = 0
+    for i, a in answered.items():
+        if lines[i].startswith("scr"):
+            same = native.get(i) == a
+        else:
+            same = _mask_ledger(native.get(i, "")) == _mask_ledger(a)
+        if not same:
+            differ += 1
+            if differ <= 2:
+                failures.append({"kind": "miri-differs", "case": lines[i], "native": native.get(i, "")[:600], "miri": a[:600]})
+    return {
+        "evaluations": len(answered),
+        "hist": {"miri:histories": len(answered), "miri:" + status: 1, "miri:differ": differ},
+        "nontrivial": [],
+        "samples": [{"miri": "%d of %d histories under cargo +nightly miri run in %.0fs: %s, %d answers differ from the native build (SUPPORT ONLY)"
+                             % (len(answered), len(lines), time.time() - t0, status, differ)}],
+        "failures": failures,
+    }
+
+
+def extra_phase(tier, seed, exes, oracle):
+    word = STORAGE_GEN_STATUS.split(" ", 1)[0]
+    res = {
+        "evaluations": 0,
+        "hist": {"translator_c17:StorageGen:" + word: 1},
+        "nontrivial": [],
+        "samples": [{"fragment": "coq/gen/StorageGen.v (tools/translate_c17_r3.py from integer/src/buffer.rs, repr.rs, add_ops.rs, mul_ops.rs, "
+                                 "pow.rs, shift_ops.rs, mul/mod.rs, mul/karatsuba.rs, mul/toom_3.rs, sqr/mod.rs)",
+                     "status": STORAGE_GEN_STATUS,
+                     "tied_by": "C17_tie_buffer, C17_tie_requests, C17_tie_scratch_plans, C17_gen_capacity_compact, C17_scratch_*_requirement, "
+                                "the extended machine (StorageOps2.v) and the extraction use the generated definitions directly" if word == "ok"
+                                else "correspondence run only (source not parsed; previous copy marked STALE)"}],
+        "failures": [],
+    }
+    if tier == "thorough" and exes and os.environ.get("VERIF_NO_MIRI") != "1":
+        m = miri_support(seed, exes)
+        res["evaluations"] += m["evaluations"]
+        res["hist"].update(m["hist"])
+        res["samples"] += m["samples"]
+        res["failures"] += m["failures"]
+    return res
+
+
 ID = "C17"
 READY = True
 ORACLE = "c17"
@@ -12,35 +138,53 @@ CASE_TIMEOUT = {"quick": 30, "thorough": 120}
 CONFIGS = ["default", "release"]
 SHRINK = True
 
-LEVEL_TEXT = ("Machine-checked Coq theorems about an abstract machine that transcribes integer/src/buffer.rs and repr.rs (every assert!, "
-              "debug_assert! and unsafe-block precondition is an explicit guard, the allocator is a ghost heap): Repr::from_buffer - the exit of "
-              "every arithmetic operation - establishes the representation invariant from any owned buffer; clone, clone_from between values "
-              "of any sizes (also statics), ones, construction, drop, move, swap, neg, abs preserve the invariant of the whole pool, fail no "
-              "guard, free every block exactly once and leak nothing - lifted by induction to all finite histories of these steps. The real "
-              "code is tied to the machine by a correspondence run under a guard/counting allocator: layout of every value after every step, "
-              "allocation ledger, values, in two build profiles.")
+LEVEL_TEXT = ("Machine-checked Coq theorems (53 pinned statements) about an abstract machine that transcribes integer/src/buffer.rs and repr.rs "
+              "(every assert!, debug_assert! and unsafe-block precondition is an explicit guard, the allocator is a ghost heap): Repr::from_buffer "
+              "establishes the representation invariant from any owned buffer; construction, clone, clone_from between values of any sizes (also "
+              "statics), ones, drop, move, swap, neg, abs, the thirteen binary operators (+ - * & | ^ / % and the signed ones) in every call form, "
+              "shl, shr, set_bit, clear_bit, the Buffer -> Box<[Word]> hand-over of ConstDivisor and - new in round 3 - pow (incl. the loops of "
+              "pow_word_base / pow_dword_base, which provably never leave their block: every push_resizing fits, every res.push_zeros(res.len()) "
+              "has room in Buffer::allocate(exp + 1) / (2 * exp)), sqr, gcd in every call form, div_rem, next_power_of_two, clear_high_bits, "
+              "split_bits preserve the invariant of the whole pool, fail no guard, free every block exactly once and leak nothing - lifted by "
+              "induction to all finite histories. The scratch bump allocator of memory.rs is an offset machine: for EVERY operand length the block "
+              "of memory_requirement_up_to words serves every nested allocate_slice of the schoolbook / Karatsuba / Toom-3 recursion, of chunked "
+              "unbalanced products, of squaring and of the squarings inside pow (2n + 2 ceil_log2 n resp. 4n + 13 ceil_log2 n are proved, the "
+              "latter through 2^20 <= 3^13 per Toom-3 level). Capacity formulas, reallocation tests, requested capacities, thresholds, requirement "
+              "formulas and the allocation sequences of Karatsuba / Toom-3 are REGENERATED from the Rust sources on every run "
+              "(coq/gen/StorageGen.v) and the theorems are stated over the generated definitions. The real code is tied to the machine by a "
+              "correspondence run under a guard/counting allocator (layout of every value after every step, allocation ledger, values, exact "
+              "capacities; two build profiles) and, for the scratch memory, by bisecting the smallest scratch block with which the real kernel "
+              "still runs (it equals the demand of the modelled allocation plans).")
 LEVEL_NOTE = ("PARTIAL: the theorems are about the abstract machine, not about the Rust unsafe blocks themselves (pointer arithmetic, transmute "
-              "layout equality, realloc are outside every theorem; the guard allocator with red zones, poisoning and a quarantine searches "
-              "for their failures). The buffer handling of add, sub, mul, shl, shr, set_bit, clear_bit (all call forms) is transcribed in the "
-              "machine and its exact capacities are compared on every run, but the history theorem does not cover these steps (only their "
-              "exit from_buffer and push_resizing/ensure_capacity are proved). div, gcd, pow, sqrt, and/or/xor, conversions and the scratch "
-              "bump allocator of memory.rs are only compared (invariant + ledger + value after every step). Word contents enter at value level.")
-TECHNIQUE = "Coq proof over an abstract storage machine (invariant by induction over histories) + extracted-machine correspondence run under a guard allocator"
+              "layout equality, realloc are outside every theorem; the guard allocator with red zones, poisoning and a quarantine searches for "
+              "their failures, and the thorough tier runs the corpus and threshold histories under cargo +nightly miri as SUPPORT). Word contents "
+              "enter at value level; two value-level facts are therefore not guards of the machine: inside pow_large_base the debug_assert!(len >= 2) "
+              "of mul_large / square_large on the intermediate powers, and the Lehmer kernel gcd::gcd_in_place, which enters as a parameter "
+              "constrained by its length contract. Still only compared (invariant + ledger + value after every step): sqrt / nth_root, the modular "
+              "ring operations other than ConstDivisor::new, bit operations and shifts on negative IBig operands, signed-byte / string / chunk "
+              "conversions, and the scratch memory of division, gcd and sqrt.")
+TECHNIQUE = ("Coq proof over an abstract storage machine and an offset machine of the scratch allocator (invariants by induction over histories / "
+             "recursion depth), fragments regenerated from the source, + extracted-machine correspondence run under a guard allocator")
 RULE = ("a case is a history of 1-40 steps over a pool of 4 values; steps = constructors (from_words with padding, bytes, primitives, ones, "
         "statics) x arithmetic/bit/shift operations in every call form (vv vr rv rr and the assigning forms, also with both operands the same "
-        "slot) x clone/clone_from/drop/move/swap/neg; sizes drawn from word counts {0,1,2,3,4,5,7,8,9,16,17,24,25,31,32,33,48,64,100} and from "
-        "positions that move a value across the inline/heap boundary (2<->3 words) and across the reallocation thresholds "
-        "(len = capacity, capacity = max_compact_capacity(len) +-1). A case is non-trivial when at least one value lived on the heap; "
-        "distinct = distinct history texts.")
-EXPLANATION = ("Theorems (coq/props/C17.v) are about the storage machine of coq/theories/Int/StorageModel.v. Tie: after every step of every "
-               "history the harness reports the layout of all values and the allocator ledger; the oracle checks them against the extracted "
-               "layout specification and runs the extracted machine beside the implementation (exact capacities = fidelity statistic).")
+        "slot) x clone/clone_from/drop/move/swap/neg x pow/sqr/gcd/div_rem/next_power_of_two/clear_high_bits/split_bits/conversion round trips; "
+        "sizes drawn from word counts {0,1,2,3,4,5,7,8,9,16,17,24,25,31,32,33,48,64,100} and from positions that move a value across the "
+        "inline/heap boundary (2<->3 words) and across the reallocation thresholds (len = capacity, capacity = max_compact_capacity(len) +-1; "
+        "pow exponents at wexp -1/0/+1, 2 wexp, quotient 2^j -1/0/+1). One case in 40 is a scratch probe `scr la lb` (lb at the schoolbook / "
+        "Karatsuba / Toom-3 thresholds and at lengths whose halves / thirds fall on them, la = lb q + r). A case is non-trivial when at least "
+        "one value lived on the heap (resp. scratch memory was needed); distinct = distinct case texts.")
+EXPLANATION = ("Theorems (coq/props/C17.v) are about the storage machine of coq/theories/Int/StorageModel.v + StorageOps2.v and the scratch offset "
+               "machine of ScratchModel.v; coq/gen/StorageGen.v is regenerated from the Rust sources at plug-in import (status in the evidence). "
+               "Tie: after every step of every history the harness reports the layout of all values and the allocator ledger; the oracle checks "
+               "them against the extracted layout specification and runs the extracted machine beside the implementation (exact capacities = "
+               "fidelity statistic; for gcd either buffer may hold the result). Scratch probes compare the reserved words with the regenerated "
+               "formula and the smallest working block (bisection with verif_hooks::mul_kernel_scratch) with the demand of the modelled plans.")
 TRUSTED_BASE = [
     "Coq 8.16.1 kernel",
-    "the transcription of buffer.rs / repr.rs / the buffer handling of add_ops, mul_ops, shift_ops, bits.rs into coq/theories/Int/StorageModel.v (by hand; compared on every run: exact capacities)",
+    "the transcription of buffer.rs / repr.rs / memory.rs and of the buffer handling of add_ops, mul_ops, div_ops, shift_ops, bits.rs, pow.rs, gcd_ops.rs into coq/theories/Int/StorageModel.v, StorageOps2.v, ScratchModel.v (by hand; compared on every run: exact capacities, exact scratch demand); formulas, tests, thresholds and allocation sizes are regenerated (tools/translate_c17_r3.py, a small expression translator) and tied by C17_tie_*",
     "extraction: ExtrOcamlBasic + ExtrOcamlZBigInt + coq/extract/FastZ.v; OCaml 4.13.1 + zarith; oracle/common.ml, oracle/driver_c17.ml (the value semantics of the steps are zarith arithmetic in the driver)",
-    "Rust harness harness/src/bin/c17.rs incl. its guard/counting #[global_allocator] (red zones, poisoning, quarantine, realloc always moves); verif_hooks::repr_layout_ibig",
-    "the unsafe blocks of buffer.rs/repr.rs/memory.rs do what their guards assume (NOT proved; searched by the guard allocator only - a Miri support run is not implemented)",
+    "Rust harness harness/src/bin/c17.rs incl. its guard/counting #[global_allocator] (red zones, poisoning, quarantine, realloc always moves); verif_hooks::repr_layout_ibig, mul_kernel_scratch, mul_scratch_words",
+    "the unsafe blocks of buffer.rs/repr.rs/memory.rs do what their guards assume (NOT proved; searched by the guard allocator and, in the thorough tier, by a Miri support run over the corpus and ~120 threshold histories)",
 ]
 ASSUMPTIONS = [
     "values stay far below Buffer::MAX_CAPACITY words (2^58): the AllocateTooMuch / capacity-overflow outcomes are not exercised",
@@ -286,7 +430,68 @@ def gen_boundary(rng, k=None):
     fw = lambda slot, x: "fw %x %s 0" % (slot, hx(x))
     dw = lambda slot, x: "dw %x %s 0" % (slot, hx(x))
     if k is None:
-        k = rng.below(21)
+        k = rng.below(27)
+    if k == 21:
+        # pow with a one-word base: shortcuts (0, 1, 2, powers of two: set_bit), exp < wexp / < 2 wexp (inline), the loop of
+        # pow_word_base (exp / wexp >= 2) with exponents whose quotient is 2, 3, 2^j - 1, 2^j, 2^j + 1; negative bases; even bases
+        # (the factor 2^shift is removed first: shr, pow, shl)
+        base = rng.choice([0, 1, 2, 4, 1 << 31, 3, 3, 5, 7, 10, 12, 255, 0xffffffff, 0x100000001, M64, M64 - 1, rng.bits(64) | 1, rng.bits(20) | 1])
+        wexp = 1
+        if base > 2:
+            while base ** (wexp + 1) < 1 << 64:
+                wexp += 1
+        q = rng.choice([2, 3, 4, 5, 7, 8, 9, 15, 16, 17, 31, 33])
+        ex = rng.choice([0, 1, 2, 3, wexp - 1, wexp, 2 * wexp - 1, 2 * wexp, q * wexp, q * wexp + rng.below(wexp), q * wexp - 1])
+        if base > 2 and base.bit_length() * ex > 64 * 300:
+            ex = max(3, 64 * 300 // base.bit_length())
+        if base in (2, 4, 1 << 31):
+            ex = min(ex, 3000)
+        return [dw(d, base * rng.choice([1, 1, -1])), "pow %x %x %x" % (t, d, max(0, ex))]
+    if k == 22:
+        # pow with a two-word base (pow_dword_base: 2 * exp words, two carry words per multiplication) and with a long base
+        if rng.chance(1, 2):
+            base = rng.choice([1 << 64, (1 << 64) + 1, (1 << 128) - 1, rng.bits(128) | 1 << 127 | 1, (1 << 127) + 1, 3 << 64, (rng.bits(64) | 1) << 64 | 1])
+            ex = rng.choice([0, 1, 2, 3, 4, 5, 7, 8, 9, 15, 16, 17, 31, 32, 33])
+            return [dw(d, base * rng.choice([1, 1, -1])), "pow %x %x %x" % (t, d, ex)]
+        nb = rng.choice([3, 3, 4, 5, 8])
+        base = top_set(rng, nb) | 1 if rng.chance(2, 3) else top_set(rng, nb) << rng.choice([1, 64, 70])
+        return [fw(d, base * rng.choice([1, -1])), "pow %x %x %x" % (t, d, rng.choice([0, 1, 2, 3, 4, 5, 6, 7, 8, 9]))]
+    if k == 23:
+        # sqr: one word, two words (4-word spill), long; the result length 2n or 2n - 1
+        x = rng.choice([M64, 1 << 63, 1 << 64, (1 << 128) - 1, rng.bits(128) | 1 << 127, top_set(rng, n), 1 << (64 * n - 64), (1 << (64 * n)) - 1])
+        return [fw(d, x) if nwords(x) > 2 else dw(d, x), "sqr %x %x" % (t, d)]
+    if k == 24:
+        # gcd in every call form: equal operands, one dividing the other, coprime, a common factor of 1 / 2 / 3 words, with a
+        # one- or two-word operand (gcd_large_dword), with zero
+        g = rng.choice([1, 1, rng.bits(64) | 1, rng.bits(128) | 1 << 127 | 1, top_set(rng, 3) | 1, top_set(rng, rng.choice([4, 5, 8])) | 1])
+        x = g * rng.choice([1, top_set(rng, rng.choice([1, 2, 3, n])) | 1, 3, 1 << 64])
+        y = rng.choice([x, g, g * (top_set(rng, rng.choice([1, 2, 3, 4, n])) | 1), g * 5, 0, rng.bits(64), rng.bits(128)])
+        a, b = rng.choice([(d, e), (e, d)])
+        return [fw(d, x) if nwords(x) > 2 else dw(d, x), fw(e, y) if nwords(y) > 2 else dw(e, y), "ugcd %s %x %x %x" % (form, t, a, b)]
+    if k == 25:
+        # div_rem by reference: quotient with / without a top word, remainder of 0..n words, short dividend, small divisor, zero
+        ny = rng.choice([3, 3, 4, n, 2, 1, 0])
+        y = rng.choice([top_set(rng, ny), 1 << (64 * ny - 1), (1 << (64 * ny)) - 1]) if ny else 0
+        nx = rng.choice([ny, ny + 1, ny + 3, n + ny, 3, 2])
+        x = rng.choice([top_set(rng, nx), y * top_set(rng, 2) + rng.bits(64), y * ((1 << 64) - 1), (1 << (64 * nx)) - 1]) if nx else 0
+        e2 = [i for i in range(4) if i != t][rng.below(3)]
+        return [fw(d, x) if nwords(x) > 2 else dw(d, x), fw(e, y) if nwords(y) > 2 else dw(e, y), "udivrem %x %x %x %x" % (t, e2, d, e)]
+    if k == 26:
+        # next_power_of_two (carry into a new top word with len = capacity, already a power of two), clear_high_bits / split_bits
+        # at word boundaries, at 0, beyond the length
+        r = rng.below(3)
+        if r == 0:
+            x = rng.choice([(1 << (64 * n)) - 1, 1 << (64 * n - 1), (1 << (64 * n - 1)) + 1, top_set(rng, n), (1 << 128) - 1, (1 << 127) + 1, 1 << 127])
+            st = [fw(d, x) if nwords(x) > 2 else dw(d, x)]
+            if nwords(x) > 2 and rng.chance(1, 2):
+                st.append("setbit %x %x" % (d, 64 * c - 1))
+            return st + ["npow2 %x 0" % d]
+        x = top_set(rng, n)
+        bits = rng.choice([0, 1, 63, 64, 65, 127, 128, 129, 192, 64 * (n - 1), 64 * n - 1, 64 * n, 64 * n + 1, 64 * n + 64, rng.below(64 * n + 70)])
+        if r == 1:
+            return [fw(d, x), "chb %x %x" % (d, bits)]
+        e2 = [i for i in range(4) if i != t][rng.below(3)]
+        return [fw(d, x), "split %x %x %x %x" % (t, e2, d, bits)]
     if k == 0:
         # add: two double words whose sum needs a third word (add_dword spills) or just does not
         x = (1 << 128) - rng.choice([1, 1, 2, 1 << 64, rng.bits(64) + 1])
@@ -611,8 +816,26 @@ def gen_history(rng, tier):
     return "hist " + " ; ".join(steps)
 
 
+SCR_LB = [1, 2, 23, 24, 25, 26, 27, 31, 32, 33, 47, 48, 49, 50, 63, 64, 65, 95, 96, 97, 98, 127, 128, 129, 191, 192, 193, 194, 195, 196, 197, 198,
+          199, 200, 255, 256, 257, 288, 289, 290, 383, 384, 385, 500, 574, 575, 576, 577, 578, 579, 580, 600, 700]
+
+
+def gen_scratch(rng):
+    """scr la lb: the scratch memory of an la x lb word product: lb at the thresholds of schoolbook / Karatsuba / Toom-3 (and at the
+    lengths whose halves / thirds fall on them), la = lb, a multiple of lb, lb * q + r with r at a threshold again"""
+    lb = rng.choice(SCR_LB) if rng.chance(3, 4) else rng.range(1, 640)
+    r = rng.choice([0, 0, 1, 24, 25, 26, 49, 97, 192, 193, rng.below(max(1, lb))])
+    if r >= lb:
+        r = 0
+    la = lb * rng.choice([1, 1, 1, 2, 3]) + r
+    return "scr %x %x" % (la, lb)
+
+
 def gen_cases(rng, tier, n):
-    return [gen_history(rng, tier) for _ in range(n)]
+    out = []
+    for i in range(n):
+        out.append(gen_scratch(rng) if i % 40 == 7 else gen_history(rng, tier))
+    return out
 
 
 def canon_answer(a):
